@@ -20,10 +20,14 @@ static inline Mdl<C, MCAP> m_splice(C const* a, size_t n, size_t pos, size_t len
     r.fits = keep <= MCAP && k <= MCAP - keep;
     r.n    = r.fits ? keep + k : 0;
     if (r.fits) {
-        size_t w = 0;
-        for (size_t i = 0; i < pos; i++) r.d[w++] = a[i];
-        for (size_t i = 0; i < k; i++) r.d[w++] = src ? src[i] : fill;
-        for (size_t i = pos + len; i < n; i++) r.d[w++] = a[i];
+        // gather form: every output character is selected by its (concrete) index, so the solver sees reads at symbolic
+        // positions but never a write at a symbolic position
+        for (size_t i = 0; i < MCAP; i++) {
+            if (i >= r.n) break;
+            if (i < pos) r.d[i] = a[i];
+            else if (i - pos < k) r.d[i] = src ? src[i - pos] : fill;
+            else r.d[i] = a[i - k + len];
+        }
     }
     return r;
 }
